@@ -35,6 +35,25 @@ theorem flags_bit1 (s z b5 h b3 pv n c : Bool) : (flags s z b5 h b3 pv n c).getL
 theorem flags_bit0 (s z b5 h b3 pv n c : Bool) : (flags s z b5 h b3 pv n c).getLsbD 0 = c := by
   cases s <;> cases z <;> cases b5 <;> cases h <;> cases b3 <;> cases pv <;> cases n <;> cases c <;> rfl
 
+
+-- the same facts for the `v[i]` spelling that `simp` prefers
+@[simp] theorem flags_get7 (s z b5 h b3 pv n c : Bool) : (flags s z b5 h b3 pv n c)[7] = s := by
+  rw [← BitVec.getLsbD_eq_getElem]; exact flags_bit7 ..
+@[simp] theorem flags_get6 (s z b5 h b3 pv n c : Bool) : (flags s z b5 h b3 pv n c)[6] = z := by
+  rw [← BitVec.getLsbD_eq_getElem]; exact flags_bit6 ..
+@[simp] theorem flags_get5 (s z b5 h b3 pv n c : Bool) : (flags s z b5 h b3 pv n c)[5] = b5 := by
+  rw [← BitVec.getLsbD_eq_getElem]; exact flags_bit5 ..
+@[simp] theorem flags_get4 (s z b5 h b3 pv n c : Bool) : (flags s z b5 h b3 pv n c)[4] = h := by
+  rw [← BitVec.getLsbD_eq_getElem]; exact flags_bit4 ..
+@[simp] theorem flags_get3 (s z b5 h b3 pv n c : Bool) : (flags s z b5 h b3 pv n c)[3] = b3 := by
+  rw [← BitVec.getLsbD_eq_getElem]; exact flags_bit3 ..
+@[simp] theorem flags_get2 (s z b5 h b3 pv n c : Bool) : (flags s z b5 h b3 pv n c)[2] = pv := by
+  rw [← BitVec.getLsbD_eq_getElem]; exact flags_bit2 ..
+@[simp] theorem flags_get1 (s z b5 h b3 pv n c : Bool) : (flags s z b5 h b3 pv n c)[1] = n := by
+  rw [← BitVec.getLsbD_eq_getElem]; exact flags_bit1 ..
+@[simp] theorem flags_get0 (s z b5 h b3 pv n c : Bool) : (flags s z b5 h b3 pv n c)[0] = c := by
+  rw [← BitVec.getLsbD_eq_getElem]; exact flags_bit0 ..
+
 theorem xor_carry {w : Nat} (x y : BitVec w) (c : Bool) (i : Nat) (hi : i < w) :
     ((x + y + (BitVec.ofBool c).setWidth w) ^^^ x ^^^ y).getLsbD i = BitVec.carry i x y c := by
   rw [BitVec.getLsbD_xor, BitVec.getLsbD_xor, BitVec.getLsbD_add_add_bool hi]
@@ -286,6 +305,9 @@ theorem carry_zext16 (a b : U16) (cin : Bool) (i : Nat) :
 theorem hi8_bit (v : U16) (i : Nat) (hi : i < 8) : (hi8 v).getLsbD i = v.getLsbD (8 + i) := by
   unfold hi8
   simp [BitVec.getLsbD_setWidth, BitVec.getLsbD_ushiftRight, hi]
+
+theorem hi8_get (v : U16) (i : Nat) (hi : i < 8) : (hi8 v)[i] = v[8 + i] := by
+  rw [← BitVec.getLsbD_eq_getElem, ← BitVec.getLsbD_eq_getElem, hi8_bit v i hi]
 
 theorem adc16_res (a b : U16) (cin : Bool) :
     (((a.setWidth 32 : U32) + b.setWidth 32 + (BitVec.ofBool cin).setWidth 32).setWidth 16 : U16)
